@@ -26,6 +26,47 @@ use tokio_util::sync::CancellationToken;
 TR = "Tracked(tr): Tracked<&mut Trace>"
 
 
+def build_to_xml_event(u, te):
+    """TelemetryEvent::to_xml_event under contract. Verus leaves the value of `format!` unconstrained, so every
+    `format!(LIT, arg)` of the function is redirected (E9) to a generated stub whose body is that very format! call and
+    whose ASSUMED contract is generated from the literal found in the tree (DESIGN rule E6 carried out through E9):
+    one `{}` placeholder => result == text-before ++ Display(arg) ++ text-after; Display of a String is the string,
+    Display of a u64 is its decimal text (dec_u64). Editing the literal in /repo changes the assumption accordingly."""
+    from vxlib import Undecided
+    it = te.item("TelemetryEvent::to_xml_event", "fn")
+    st = te.item("TelemetryEvent", "struct")
+    u64_fields = set()
+    for f in st["fields"]:
+        ty = te.s(f["ty"][0], f["ty"][1]).strip() if "ty" in f else None
+        if ty == "u64":
+            u64_fields.add(f["name"])
+    e9 = []
+    n = 0
+    for m in it["macros"]:
+        if m["name"] != "format":
+            raise Undecided("to_xml_event: unexpected macro %s" % m["name"])
+        text = te.s(m["span"][0], m["span"][1])
+        mm = re.match(r'format!\(\s*("(?:[^"\\]|\\.)*")\s*,\s*(.*?)\s*,?\s*\)$', text, re.S)
+        if not mm:
+            raise Undecided("to_xml_event: format! call not of the form format!(LITERAL, one_argument): %r" % text[:60])
+        lit, arg = mm.group(1), mm.group(2)
+        inner = lit[1:-1]
+        if inner.count("{}") != 1 or inner.replace("{}", "").count("{") or inner.replace("{}", "").count("}"):
+            raise Undecided("to_xml_event: format literal must contain exactly one {} placeholder: %s" % lit)
+        pre, post = inner.split("{}")
+        fm = re.match(r"self\.(\w+)$", arg)
+        n += 1
+        if fm and fm.group(1) in u64_fields:
+            e9.append((text, None, "a0: u64", arg, "String", '    ensures r@ == "%s"@ + dec_u64(a0) + "%s"@,' % (pre, post),
+                       dict(body="format!(%s, a0)" % lit, name="vx_e9_format_%d" % n)))
+        else:
+            e9.append((text, None, "a0: String", arg, "String", '    ensures r@ == "%s"@ + a0@ + "%s"@,' % (pre, post),
+                       dict(body="format!(%s, a0)" % lit, name="vx_e9_format_%d" % n)))
+    u.take_fn(te, "TelemetryEvent::to_xml_event", contract="""
+        ensures r@ == event_xml(*self),  // @C18.to_xml_event.every_text_parameter_is_entity_encoded_inside_fixed_markup
+""", pre_body="broadcast use axiom_to_string_string;\nproof { reveal(event_xml); }", e9=e9)
+
+
 def unit_ret(sf, path):
     """E7 (return value naming) for an `async fn` whose return type is implicit: this Verus build drops the
     postconditions of such a function at the awaiting call site unless the unit result is named.
@@ -116,7 +157,9 @@ proof { assert(old(tr).batches.subrange(0, old(tr).batches.len() as int) =~= old
         requires old(tr).wf(),
         ensures final(tr).wf(),
                 final(tr).removed == old(tr).removed + files@,  // @C18.process_events_and_clean.every_input_file_is_cleaned
-""", pre_body="broadcast use group_fmt_telemetry, lemma_concat_push;", loop_iter_names={0: "it"}, loop_attrs={0: "#[verifier::loop_isolation(false)]"}, loops={0: """
+""", e9=[("num_events_logged += events.len()", None, "num_events_logged: &mut usize, events: &Vec<Event>", "&mut num_events_logged, &events", "", "",
+              dict(body="*num_events_logged += events.len()", name="vx_e9_count_events"))],
+              pre_body="broadcast use group_fmt_telemetry, lemma_concat_push;", loop_iter_names={0: "it"}, loop_attrs={0: "#[verifier::loop_isolation(false)]"}, loops={0: """
             invariant
                 it.seq() == files@,
                 tr.wf(),
@@ -253,6 +296,5 @@ impl View for TelemetryData {
                 u.take_fn(te, "TelemetryEvent::from_event_log", external_body=True, contract="""
         ensures r == tev_of(*event_log, vm_meta_data),
 """)
-                u.take_fn(te, "TelemetryEvent::to_xml_event", external_body=True, contract="""
-        ensures r@ == event_xml(*self),
-""")
+                build_to_xml_event(u, te)
+            u.flush_e9()
